@@ -188,7 +188,12 @@ mpz_inp_raw(mpz_ptr x, FILE *fp)
     if (out->writtenSize != 0)
     {
         if (fread(out->written, out->writtenSize, 1, fp) != 1)
+        {
+            /* mpz_inp_raw_p has already set the size; don't leave x referring
+               to limb data that was never read */
+            SIZ(x) = 0;
             return 0;
+        }
 
         mpz_inp_raw_m(x, out);
     }
